@@ -293,6 +293,9 @@ def run(ctx, rep) -> None:
 
     rep.rule("C10.9", "the solvers are functions of their tensor arguments: no in-place operation lands in the caller's matrix")
     rep.attempt("tensor_arguments_are_inputs", tensor_arguments_are_inputs, ctx, rep, "C10.9")
+    from .common import memoised_results_are_read_only
+
+    rep.attempt("memoised_results_are_read_only", memoised_results_are_read_only, ctx, rep, "C10.9")
     from .c12 import decomposition_structure
 
     rep.attempt("decomposition_structure", decomposition_structure, ctx, rep, "C10.7")
